@@ -387,7 +387,8 @@ func (x *Exec) evalSpecCall(st *State, e *ast.CallExpr) *Value {
 		if name == "all" {
 			if x.skolem {
 				// being proved: type invariants of the values read may be assumed
-				return scalarV(boolT, x.b.Forall([]*Term{bv}, x.b.Implies(x.b.And(append([]*Term{rng}, extra...)...), body)))
+				gb := x.b.Implies(x.b.And(append([]*Term{rng}, extra...)...), body)
+				return scalarV(boolT, x.b.Forall([]*Term{bv}, gb))
 			}
 			// being assumed: the invariants hold for every index as well
 			fb := x.b.Implies(rng, x.b.And(append([]*Term{body}, extra...)...))
@@ -447,6 +448,38 @@ func (x *Exec) evalSpecCall(st *State, e *ast.CallExpr) *Value {
 		}
 		k := x.coerce(st, x.eval(st, e.Args[1]), u.Key())
 		return scalarV(boolT, x.mapHas(st, m, u, k))
+	case "seqins", "seqdel":
+		// seqins(s, k, v): s with v inserted at position k; seqdel(s, k): s without position k
+		sv := x.eval(st, e.Args[0])
+		at, ok := sv.T.Underlying().(*types.Array)
+		if !ok {
+			x.fail("spec: %s needs a ghost sequence", name)
+			return x.constInt(0)
+		}
+		k := x.toIndex(st, x.eval(st, e.Args[1]))
+		is := x.idxSort()
+		x.nameCount["$q"]++
+		i := x.b.Var(fmt.Sprintf("q!i!%d", x.nameCount["$q"]), is)
+		one := x.b.Num(big.NewInt(1), is)
+		out := &Value{T: sv.T, L: map[string]*Term{}}
+		var ins *Value
+		if name == "seqins" {
+			ins = x.coerce(st, x.eval(st, e.Args[2]), at.Elem())
+		}
+		for p, a := range sv.L {
+			na := x.b.Fresh("seq."+p, a.Sort)
+			out.L[p] = na
+			rd := x.b.Select(na, i)
+			var def *Term
+			if name == "seqins" {
+				lp := strings.TrimPrefix(strings.TrimPrefix(p, "arr"), ".")
+				def = x.b.Ite(x.b.Lt(i, k, true), x.b.Select(a, i), x.b.Ite(x.b.Eq(i, k), ins.L[lp], x.b.Select(a, x.b.Sub(i, one))))
+			} else {
+				def = x.b.Ite(x.b.Lt(i, k, true), x.b.Select(a, i), x.b.Select(a, x.b.Add(i, one)))
+			}
+			x.assume(st, x.b.Forall([]*Term{i}, x.b.Eq(rd, def), []*Term{rd}))
+		}
+		return out
 	case "emptymap":
 		v := x.eval(st, e.Args[0])
 		return scalarV(boolT, x.mapIsEmpty(st, v.scalar()))
@@ -750,6 +783,29 @@ func (x *Exec) inferPatterns(bound []*Term, body *Term) [][]*Term {
 		}
 	}
 	walk(body, false)
+	if len(cands) == 0 && len(bound) == 1 {
+		// fall back to array reads indexed exactly by the bound variable
+		seen2 := map[*Term]bool{}
+		var walk2 func(t *Term)
+		walk2 = func(t *Term) {
+			if seen2[t] || t.Op == "forall" || t.Op == "exists" {
+				return
+			}
+			seen2[t] = true
+			if t.Op == "select" && t.Args[1] == bound[0] {
+				// only reads of plain arrays (heap/ghost), not of nested selects over the bound var
+				acc := map[*Term]bool{}
+				mentions(t.Args[0], acc)
+				if len(acc) == 0 {
+					cands = append(cands, t)
+				}
+			}
+			for _, a := range t.Args {
+				walk2(a)
+			}
+		}
+		walk2(body)
+	}
 	if len(cands) == 0 {
 		return nil
 	}
